@@ -119,10 +119,19 @@ Proof.
 Qed.
 Print Assumptions scan_consumes_module_data.
 
+(* YRX_INVALID_STATE is a return path of exactly the functions for which the
+   header documents it (yrx_scanner_scan / _scan_file as standard scans of a block
+   scanner, set_module_output, set_module_data): a state guard in any other
+   wrapper - e.g. a setter refusing block mode - breaks this *)
+Theorem state_guards_as_documented : forall f : fn,
+  has_invalid_state f = true <-> In (fn_name f) documented_invalid_state.
+Proof. exact state_guards_lemma. Qed.
+Print Assumptions state_guards_as_documented.
+
 Example pending_nonvacuous :
-  preplay (pinit 0%N) [PSetGlob 5; PSetData 1 true; PSetOut 7 true; PScanStep KScanFile false 1 7 5;
+  preplay (pinit 0%N) [PSetGlob 5 true; PSetData 1 true; PSetOut 7 true; PScanStep KScanFile false 1 7 5;
                        PScanStep KScan false 0 0 5; PSetData 2 true; PScanStep KScanBlock false 0 0 5;
-                       PSetData 1 false; PScanStep KScan true 0 0 0] = true.
+                       PSetData 1 false; PSetGlob 2 true; PScanStep KFinish false 0 0 2; PScanStep KScan true 0 0 0] = true.
 Proof. vm_compute. reflexivity. Qed.
 
 (* non-vacuity: an admissible two-thread history in which thread 0 fails to
